@@ -1,10 +1,10 @@
 (** * C01 on the class of C18 (stage D): no two routed steps of a polygon whose edges touch only at common end
       points cross properly; hence, on the class, no two edges of the returned geometry of a level cross. *)
-From Coq Require Import ZArith QArith Lqa Lia List Bool Sorted Permutation.
+From Coq Require Import ZArith QArith Qreals Reals Lqa Lra Lia List Bool Sorted Permutation.
 From Texel Require Import Prelude.Base Index.Model Index.ProofsInsert Index.ProofsLine Index.ProofsOrder Index.ProofsGrid
   Index.ProofsRouting Snap.Model Snap.ProofsBasics Snap.ProofsLevel Geom.Cross Geom.Touch Geom.Polygon
   Snap.ProofsGeomTieRoute Snap.ProofsJoinC05 Snap.ProofsJoinC18 Snap.ProofsJoinC04b Snap.ProofsJoinC01 Snap.ProofsJoinC01b
-  Snap.ProofsJoinC01c.
+  Snap.ProofsSweepR Snap.ProofsJoinC01c.
 From Texel Require Snap.ProofsKmpEdges Snap.ProofsKmpLe2 Snap.ProofsLevelC07.
 Import ListNotations.
 Open Scope Z_scope.
@@ -100,11 +100,11 @@ Qed.
 
 (** ** no two routed steps cross *)
 Theorem routed_steps_do_not_cross g P hs L e f : 0 < gres g -> RootCovers g -> insertPolygon g P = Ok hs ->
-  (L <= gdeep g)%nat -> ExactMiddle g L -> edges_separated P ->
+  (L <= gdeep g)%nat -> edges_separated P ->
   routed_step g (hotLevels g hs) L P e -> routed_step g (hotLevels g hs) L P f ->
   ~ proper_cross (fst e) (snd e) (fst f) (snd f).
 Proof.
-  intros Hr C Hi HL Ex Hsep He Hf Hx.
+  intros Hr C Hi HL Hsep He Hf Hx.
   destruct (routed_step_normal g P hs L e Hr C Hi HL He) as [a [b [[[r1 [Hr1 Hab]] Se] [Ha Hb]]]].
   destruct (routed_step_normal g P hs L f Hr C Hi HL Hf) as [c [d [[[r2 [Hr2 Hcd]] Sf] [Hc Hd]]]].
   destruct (Hsep r1 r2 a b c d Hr1 Hr2 Hab Hcd) as [E | [E | Hst]].
@@ -131,16 +131,16 @@ Proof.
     destruct Ge as [q1 [q2 [Hq Eq]]]. destruct Gf as [r1' [r2' [Hrr Er]]].
     destruct (pairs_split _ _ _ Hq) as [l1 [l2 El]]. destruct (pairs_split _ _ _ Hrr) as [m1 [m2 Em]].
     pose proof (cross_flips e f Hx _ _ Eq Er) as Hxy. cbn [fst snd] in Hxy.
-    exact (steps_do_not_cross g P hs a b c d L l1 q1 q2 l2 m1 r1' r2' m2 Hr C Hi Ha Hb Hc Hd HL Ex El Em Hst Hxy).
+    exact (steps_do_not_cross g P hs a b c d L l1 q1 q2 l2 m1 r1' r2' m2 Hr C Hi Ha Hb Hc Hd HL El Em Hst Hxy).
 Qed.
 
 (** ** C01 on the class of C18 *)
 Theorem no_crossing_on_class g P levels cfg res hs : 0 < gres g -> RootCovers g ->
   (forall L, In L levels -> (L <= gdeep g)%nat) -> insertPolygon g P = Ok hs ->
   class_all_levels g P hs levels -> edges_separated P -> snapPolygon g P levels cfg = Ok res ->
-  forall L ps e f, In (L, ps) res -> ExactMiddle g L -> In e (edges ps) -> In f (edges ps) -> ~ edge_cross e f.
+  forall L ps e f, In (L, ps) res -> In e (edges ps) -> In f (edges ps) -> ~ edge_cross e f.
 Proof.
-  intros Hr C HLs Hi Hcl Hsep Hs L ps e f Hin Ex He Hf.
+  intros Hr C HLs Hi Hcl Hsep Hs L ps e f Hin He Hf.
   assert (HL : In L levels).
   { destruct (ProofsLevelC07.level_value _ _ _ _ _ _ _ Hs Hin) as [_ [_ [HL _]]]. exact HL. }
   assert (Hstep : forall e0, In e0 (edges ps) -> routed_step g (hotLevels g hs) L P e0).
@@ -148,8 +148,63 @@ Proof.
     apply in_flat_map in He0. destruct He0 as [x [Hx He0]].
     exact (snap_edges_routed_steps g P levels cfg res hs Hr C HLs Hi
              (fun L0 HL0 idx r c => Hcl L0 idx r c HL0) Hs L ps poly x e0 Hin Hpoly Hx (ring_edges_cedges x e0 He0)). }
-  unfold edge_cross. exact (routed_steps_do_not_cross g P hs L e f Hr C Hi (HLs L HL) Ex Hsep (Hstep e He) (Hstep f Hf)).
+  unfold edge_cross. exact (routed_steps_do_not_cross g P hs L e f Hr C Hi (HLs L HL) Hsep (Hstep e He) (Hstep f Hf)).
 Qed.
 
 Print Assumptions routed_steps_do_not_cross.
 Print Assumptions no_crossing_on_class.
+
+(** ** no vertex of the returned geometry inside a returned edge — without any assumption on the pixel middles
+       (the contact lemma at time 1, with the input vertex itself as the point of the pixel) *)
+Theorem no_vertex_inside_edge_on_class_general g P levels cfg res hs : 0 < gres g -> RootCovers g ->
+  (forall L, In L levels -> (0 < L <= gdeep g)%nat) -> insertPolygon g P = Ok hs ->
+  class_all_levels g P hs levels -> snapPolygon g P levels cfg = Ok res ->
+  forall L ps e p (mu : Q), In (L, ps) res -> In e (edges ps) -> In p (concat (concat ps)) ->
+    (0 <= mu)%Q -> (mu <= 1)%Q -> Geom.Close.peq (qpt p) (Geom.Close.mix mu (qpt (fst e)) (qpt (snd e))) -> p = fst e \/ p = snd e.
+Proof.
+  intros Hr C HLs Hi Hcl Hs L ps e p mu Hin He Hp M0 M1 Hon.
+  assert (HL : In L levels).
+  { destruct (ProofsLevelC07.level_value _ _ _ _ _ _ _ Hs Hin) as [_ [_ [HL _]]]. exact HL. }
+  assert (HLs' : forall L0, In L0 levels -> (L0 <= gdeep g)%nat) by (intros L0 H0; destruct (HLs L0 H0); lia).
+  destruct (ProofsJoinC04.output_vertex_is_pixel_centre_of_input_vertex g P levels cfg res L ps p Hr Hs Hin (HLs L HL) Hp)
+    as [v [Hv [Ep Hcont]]].
+  destruct (hot_contains_vertex g P hs v L Hr Hi Hv) as [Hhot _].
+  set (qd := pixelOf g L v) in *. assert (Epd : p = pixCen g L qd) by exact Ep. clear Ep.
+  assert (Pv : PIn v v 0 (pixExt g L qd)).
+  { apply containsPoint_iff in Hcont. unfold PIn, AxisIn, co, pixExt. destruct Hcont as [[X1 X2] [Y1 Y2]].
+    rewrite Zle_Qle in X1, Y1. rewrite Zlt_Qlt in X2, Y2. repeat split; Lqa.lra. }
+  assert (Hstep : routed_step g (hotLevels g hs) L P e).
+  { unfold edges in He. apply in_flat_map in He. destruct He as [poly [Hpoly He]].
+    apply in_flat_map in He. destruct He as [x [Hx He]].
+    exact (snap_edges_routed_steps g P levels cfg res hs Hr C HLs' Hi
+             (fun L0 HL0 idx r c => Hcl L0 idx r c HL0) Hs L ps poly x e Hin Hpoly Hx (ring_edges_cedges x e He)). }
+  destruct (routed_step_normal g P hs L e Hr C Hi (HLs' L HL) Hstep) as [a [b [[_ Se] [Ha Hb]]]].
+  destruct (C02_routing_vertices g P hs a b L Hr C Hi Ha Hb (HLs' L HL)) as [[Eab _] _]. rewrite Eab in Se.
+  (* the step in chain direction, and the parameter of p on it *)
+  assert (G : exists q1 q2 (nu : Q), In (q1, q2) (pairs (route g hs a b L)) /\ (0 <= nu)%Q /\ (nu <= 1)%Q /\
+              ((pixCen g L q1, pixCen g L q2) = e \/ (pixCen g L q1, pixCen g L q2) = swap e) /\
+              Geom.Close.peq (qpt p) (Geom.Close.mix nu (qpt (pixCen g L q1)) (qpt (pixCen g L q2)))).
+  { destruct e as [e1 e2]. unfold swap in Se. cbn [fst snd] in *. destruct Se as [Se | Se];
+      apply pairs_map_In in Se as [q1 [q2 [Hq [E1 E2]]]]; exists q1, q2.
+    - exists mu. rewrite <- E1, <- E2. split; [exact Hq |]. split; [exact M0 |]. split; [exact M1 |]. split; [left; reflexivity | exact Hon].
+    - exists (1 - mu)%Q. rewrite <- E1, <- E2. split; [exact Hq |]. split; [Lqa.lra |]. split; [Lqa.lra |]. split; [right; reflexivity |].
+      destruct Hon as [Hx Hy]. unfold Geom.Close.peq, Geom.Close.mix, qpt in *. cbn [fst snd] in *. split; Lqa.lra. }
+  destruct G as [q1 [q2 [nu [Hq [N0 [N1 [Eq [Hx Hy]]]]]]]].
+  destruct (pairs_split _ _ _ Hq) as [l1 [l2 El]].
+  destruct (consecutive_params g P hs a b L l1 q1 q2 l2 Hr C Hi Ha Hb (HLs' L HL) El) as [_ [_ [ta [tb [Oa [Ob Hab]]]]]].
+  pose proof Oa as [_ [_ Pa]]. pose proof Ob as [_ [_ Pb]].
+  unfold Geom.Close.mix, qpt in Hx, Hy. cbn [fst snd] in Hx, Hy. rewrite Epd in Hx, Hy.
+  apply Qeq_eqR in Hx, Hy. rewrite Q2R_plus, !Q2R_mult, Q2R_minus, !Q2R_inject_Z in Hx, Hy.
+  assert (One : Q2R 1 = 1%R) by (unfold Q2R; cbn; Lra.lra). rewrite One in Hx, Hy.
+  destruct (contact_pixel g L a b v v q1 q2 qd ta tb 0 1%R (Q2R nu) Hr Pa Pb Pv Hab) as [m [[Hm1 Hm2] Pm]].
+  - Lra.lra.
+  - apply Qle_Rle in N0, N1. rewrite One in N1. replace (Q2R 0) with 0%R in N0 by (unfold Q2R; cbn; Lra.lra). Lra.lra.
+  - unfold rx. Lra.lra.
+  - unfold ry. Lra.lra.
+  - assert (Om : OnSeg a b m (pixExt g L qd)).
+    { destruct Oa as [A0 _]. destruct Ob as [_ [B1 _]]. split; [Lqa.lra |]. split; [Lqa.lra | exact Pm]. }
+    destruct (hot_pixel_between_consecutive g P hs a b L l1 q1 q2 l2 qd ta tb m Hr C Hi Ha Hb (HLs' L HL) El Oa Ob Hhot Om Hm1 Hm2) as [E | E];
+      rewrite Epd, E; destruct e as [e1 e2]; unfold swap in Eq; cbn [fst snd] in *; destruct Eq as [Eq | Eq]; inversion Eq; auto.
+Qed.
+
+Print Assumptions no_vertex_inside_edge_on_class_general.
